@@ -243,7 +243,10 @@ func (s *scenario) network(res *mbt.Result, heights uint64, mode string) []netEv
 				p.Err = "not-committed"
 			}
 			evs = append(evs, netEvent{event: event{E: "apply", N: nd.name, Scn: s.p.ID, Cfg: nd.cfg.name, Path: "network", H: int(nd.ops.h), result: *p}})
-			nd.pool.VerifReset()
+			// reset the pool to the new head on THIS goroutine (pool.mu serialises it with the pool's own run for the chain
+			// head event).  Not VerifReset: its (nil, nil) request can be merged by scheduleReorgLoop into a pending
+			// head-event request (oldHead kept, newHead := nil), and TxPool.reset dereferences the nil newHead
+			nd.pool.VerifRunReorg(true, nil)
 			if i == 0 && nd.ops.h > submitted && nd.ops.h < heights {
 				submitted = nd.ops.h
 				submit(nd.ops.h)
